@@ -4,7 +4,7 @@ import Driver.C02
 import Driver.C12
 import Driver.Flow
 import Driver.C14
-import Driver.C05Mon
+import Driver.C05
 import Driver.C08
 import Driver.C10Mon
 import Driver.C10
@@ -41,7 +41,7 @@ def dispatch (st : DState) (prop : String) (l : Line) : DState × String :=
   | "C04" => let (s, r) := Drv.Flow.step "C04" st.c04 l; ({ st with c04 := s }, r)
   | "C07" => let (s, r) := Drv.Flow.step "C07" st.c07 l; ({ st with c07 := s }, r)
   | "C14" => (st, Drv.C14.step l)
-  | "C05" => (st, Drv.C05.step l)
+  | "C05" => (st, Drv.C05.stepFull l)
   | "C08" => let (s, r) := Drv.C08.step st.c08 l; ({ st with c08 := s }, r)
   | "C10" => (st, Drv.C10.stepModel l)
   | "C15" => (st, Drv.C15.step l)
